@@ -5,7 +5,7 @@ from pv import gallina as G
 from pv.canon import B, Exc, T, Val, outcome, unB
 
 from props import _c19_gen as GEN
-from props._c19_gen import battery_files, cpufreq_sysfs, sorted_fan_chips, sorted_temp_chips, sorted_zones
+from props._c19_gen import battery_files, cpufreq_sysfs, effective_plat, sorted_fan_chips, sorted_temp_chips, sorted_zones
 
 ID = "C19"
 COQ_REQUIRE = "C19.Run"
@@ -127,13 +127,15 @@ def g_bat(b):
 
 def coq_term(case):
     k = case["kind"]
+    if k == "history":
+        return "JL %s" % G.lst(["(%s)" % coq_term(c) for c in case["steps"]])
     if k == "temps":
         return "run_temps %s %s %s" % (G.lst([g_tchip(c) for c in sorted_temp_chips(case["chips"])]),
                                        G.lst([g_zone(z) for z in sorted_zones(case["zones"])]), G.bo(case["fahr"]))
     if k == "temps_coretemp":
         return "run_temps_coretemp %s %s %s %s" % (
             G.lst([g_tchip(c) for c in sorted_temp_chips(case["chips"])]),
-            G.lst([g_tchip(c) for c in sorted_temp_chips(case["plat"])]),
+            G.lst([g_tchip(c) for c in sorted_temp_chips(effective_plat(case))]),
             G.lst([g_zone(z) for z in sorted_zones(case["zones"])]), G.bo(case["fahr"]))
     if k == "temps_raw":
         es = ["(Build_tentry %s %s %s %s %s)" % tuple(g_raw(e[f]) for f in ("input", "name", "max", "crit", "label"))
@@ -212,6 +214,10 @@ def sort_dict_outcome(o):
 
 
 def coq_struct(case, raw):
+    if case["kind"] == "history":
+        steps = [coq_struct(c, r) for c, r in zip(case["steps"], raw)]
+        return {"steps": steps, "model": [x["model"] for x in steps],
+                "spec": None if any(x["spec"] is None for x in steps) else [x["spec"] for x in steps]}
     raw = norm(raw)
     k = case["kind"]
     if k == "temps":
@@ -238,14 +244,8 @@ def coq_struct(case, raw):
 
 # ------------------------------------------------------------------ verdicts
 def finding_key(case, coq):
-    """classes of the known (unrepaired) findings, computed from the input"""
-    k = case["kind"]
-    if k == "fans" and coq.get("mixed") is True:
-        return "fans-mixed-nesting"
-    if k == "temps_coretemp" and coq.get("plat_readable") is True:
-        return "temps-coretemp-platform-ignored"
-    if k == "cpucount" and case["sysconf"] is None and coq.get("no_processor_like") is False:
-        return "cpu-count-arm-processor-header"
+    # no known (unrepaired) finding: the six defects this check found were repaired in /repo (3a32a00, e09e22a,
+    # 60747a2, d196a16, 64999d5, 1b69de5); their inputs live in corpus/C19 and are replayed first on every run
     return None
 
 
@@ -253,6 +253,15 @@ def judge(case, coq, impl):
     from pv.core import Verdict
     if isinstance(impl, dict) and impl.get("t") == "Skip":
         return Verdict("skip", str(impl.get("a")))
+    if case["kind"] == "history":
+        worst = Verdict("ok")
+        for c, q, i in zip(case["steps"], coq["steps"], impl):
+            v = judge(c, q, i)
+            if v.kind == "violation":
+                return Verdict("violation", "step %d: %s" % (case["steps"].index(c), v.detail))
+            if v.kind == "corr":
+                worst = v
+        return worst
     model, spec = coq.get("model"), coq.get("spec")
     if _has_oom(model):
         return Verdict("skip", "out of model")
@@ -303,10 +312,11 @@ MANIFEST = {
             "ctxt/intr/softirq/btime fields of every printed /proc/stat; over every printed /proc/cpuinfo (x86 and ARM shapes) the "
             "'cpu MHz' scan returns the values in order (cpuinfo implementation of cpu_freq; current-from-cpuinfo rule when the count "
             "equals the number of policies, exact for %u.%03u), cpu_count(logical) = sysconf, else the 'processor' lines, else the "
-            "cpuN lines of /proc/stat, cpu_count(cores) = distinct topology lists, else sum over packages of 'cpu cores'. Three "
-            "known findings carry refuted theorems: ARM 'Processor' header counted as a CPU, coretemp platform sensors ignored, fans "
-            "below device/ ignored when direct fan files exist. Refuted-theorems also record the three defects found and "
-            "repaired (code before 60747a2, e09e22a, 3a32a00). "
+            "cpuN lines of /proc/stat, cpu_count(cores) = distinct topology lists, else sum over packages of 'cpu cores'. Sensors "
+            "visible only below /sys/devices/platform/coretemp.* and fans of both directory nestings are reported (every layout). "
+            "Histories of several queries over a changing tree in one process are checked step by step (no memory between calls). "
+            "Refuted-theorems record the six defects found and repaired (code before 60747a2, e09e22a, 3a32a00, d196a16, 64999d5, "
+            "1b69de5). "
             "The hand-written model is tied to the code by executing both (vm_compute vs the real psutil over a fake /sys and "
             "/proc behind a path-rewriting shim) on generated layouts.",
     "note": "Trusted: Coq kernel + vm_compute; model coq/C19/Model.v (tied by the correspondence run only); kernel formats in "
